@@ -183,3 +183,7 @@ func TestVerifC05(t *testing.T) { runProp(t, propC05) }
 var propC09 = &propDef{id: "C09", oracles: []oracleFn{oracleC09}, scenarios: c09Scenarios, post: drainC09}
 
 func TestVerifC09(t *testing.T) { runProp(t, propC09) }
+
+var propC02 = &propDef{id: "C02", oracles: []oracleFn{oracleC02}, scenarios: blScenarios}
+
+func TestVerifC02(t *testing.T) { runProp(t, propC02) }
